@@ -89,7 +89,7 @@ impl DwarfRegistry {
             &mut full_it
         };
 
-        iter.for_each(|(file, _)| {
+        iter.for_each(|(file, dwarf)| {
             let absolute_debugee_path_buf =
                 file.canonicalize().expect("canonicalize path must exists");
             let absolute_debugee_path = absolute_debugee_path_buf.as_path();
@@ -112,7 +112,9 @@ impl DwarfRegistry {
                 .max_by(|map1, map2| map1.start().cmp(&map2.start()))
                 .expect("at least one mapping must exists");
 
-            let mapping = lower_sect.start();
+            // load bias: where the object is mapped relative to the addresses it is linked at
+            // (an executable linked at a fixed address is mapped at its link addresses: bias 0)
+            let mapping = lower_sect.start().saturating_sub(dwarf.link_base());
 
             let range = RegionRange {
                 from: RelocatedAddress::from(lower_sect.start()),
